@@ -73,9 +73,38 @@ pub fn inputs(_seed: u64, open: &[String]) -> impl Iterator<Item = Value> {
         json!({"query": "query($a: Int) { value }", "valid": false}),
         json!({"query": "{ add(a: $undefined) }", "valid": false}),
         json!({"query": "{ value value2: value } { value }", "valid": false}),
+        // values of correct type
+        json!({"query": "{ inp(i: 5) }", "valid": false}),
+        json!({"query": "{ inp(i: [{a: 1}]) }", "valid": false}),
+        json!({"query": "{ inp(i: \"x\") }", "valid": false}),
+        json!({"query": "query($i: Inp!) { inp(i: $i) }", "variables": {"i": 7}, "valid": false}),
+        json!({"query": "{ add(a: 1.5) }", "valid": false}),
+        json!({"query": "{ add(a: \"1\") }", "valid": false}),
+        json!({"query": "{ optList(l: [1, \"x\"]) }", "valid": false}),
+        json!({"query": "{ optList(l: 5) }", "valid": true}),
+        json!({"query": "{ needStr(s: null) }", "valid": false}),
+        json!({"query": "{ inp(i: {a: null}) }", "valid": false}),
+        json!({"query": "{ add(a: 1, a: 2) }", "valid": false}),
+        json!({"query": "query($a: Int!, $a: Int!) { add(a: $a) }", "variables": {"a": 1}, "valid": false}),
+        json!({"query": "{ value ...F } fragment F on Pet { name }", "valid": false}),
+        json!({"query": "{ pet { ... on Query { value } } }", "valid": false}),
+        json!({"query": "query A { value } query A { value }", "valid": false}),
+        json!({"query": "{ value @skip }", "valid": false}),
+        json!({"query": "{ value @skip(if: 1) }", "valid": false}),
+        json!({"query": "{ value @include(if: true) @include(if: true) }", "valid": false}),
+        json!({"query": "query($a: Pet) { value }", "valid": false}),
+        json!({"query": "fragment F on Int { x } { value }", "valid": false}),
+        json!({"query": "mutation { value }", "valid": false}),
+        json!({"query": "subscription { value }", "valid": false}),
     ];
     if !open.iter().any(|x| x == "C09-overlap-across-fragments") {
         v.push(json!({"query": "{ x: add(a: 1) ... on Query { x: add(a: 1, b: 2) } }", "valid": false}));
+    }
+    if !open.iter().any(|x| x == "C09-duplicate-input-object-fields") {
+        v.push(json!({"query": "{ inp(i: {a: 1, a: 2}) }", "valid": false}));
+    }
+    if !open.iter().any(|x| x == "C09-selection-on-typename") {
+        v.push(json!({"query": "{ __typename { x } }", "valid": false}));
     }
     if !skip_var_pos {
         v.push(json!({"query": "query($i: Int) { value needStr(s: $i) }", "variables": {"i": 5}, "valid": false}));
